@@ -208,9 +208,10 @@ def convert_sn(desc, seed, cost=None, full_cost=False):
     from plinio.cost import params
     model = build_sn(desc, seed)
     x = sn_input(desc, seed, 1)
-    sn = SuperNet(model, cost=cost if cost is not None else params, input_example=x,
-                  full_cost=full_cost)
     from vf import neutral
+    sn = SuperNet(model, cost=cost if cost is not None else params,
+                  input_example=sn_input(desc, seed, neutral.example_batch(seed)),
+                  full_cost=full_cost)
     neutral.maybe_warm(sn, [x], seed)
     return model, sn
 
